@@ -66,6 +66,9 @@ func families(thorough bool) []family {
 	for _, b := range lang {
 		fams = append(fams, family{name: "lang-" + b.name, cfg: gcfg{Names: []string{b.name, "a"}, LangName: true, MaxW: b.w + d, MaxItems: 2, Styles: 1, HoleMaxW: 3}})
 	}
+	// top-level set forms nested in if / progn / let / cond / dotimes / handler-bind, with readers before and
+	// after, in functions defined earlier and later, in another file and spelled user:name
+	fams = append(fams, family{name: "nset", cfg: gcfg{Names: ab, NestedSet: true, DefNames: 1, MaxW: 7 + 2*d, MaxItems: 3, HoleMaxW: 1, FinalMaxW: 2, Styles: 1, Files: true, FixParam: true, Redefine: true}})
 	fams = append(fams,
 		// `list` itself redefined (bodies are tagged with vector instead)
 		family{name: "lang-list", cfg: gcfg{Names: []string{"list", "a"}, LangName: true, Wrap: "vector", MaxW: 4 + d, MaxItems: 2, Styles: 1, HoleMaxW: 2}},
@@ -481,6 +484,7 @@ func featureList(c gcfg) []string {
 	add(c.Redefine, "top-level redefinition")
 	add(c.Packages, "in-package, export, use-package, pkg:name")
 	add(c.Files, "two-file sessions")
+	add(c.NestedSet, "top-level set nested in if (one / both branches), progn, let, cond, dotimes, handler-bind")
 	add(c.LangName, "the first pool name is bound by the language (builtin / special operator / stock macro / stdlib export)")
 	add(c.Stdlib, "runtime with the standard library; the session starts with "+strings.TrimSpace(c.Prelude))
 	return l
